@@ -227,7 +227,8 @@ def raise_job(which: str, names: tuple) -> JobOut:
         try:
             hlo = index_lambda_to_high_level_op(il)
         except UnknownIndexLambdaExpr:
-            sides.append(Side(f"{which}/{nm}/recognised", which != "api", "reported as unknown"))
+            # (a cast has no high-level operation of its own: astype() is legitimately unknown)
+            sides.append(Side(f"{which}/{nm}/recognised", which != "api" or "astype" in nm, "reported as unknown"))
             continue
         except Exception as e:  # noqa: BLE001
             sides.append(Side(f"{which}/{nm}/no-crash", False, f"{type(e).__name__}: {e}"))
@@ -253,9 +254,18 @@ def raise_job(which: str, names: tuple) -> JobOut:
                 r = xp.broadcast_to(r[1], tuple(il.shape))
             if tuple(r.shape) != tuple(il.shape):
                 r = xp.broadcast_to(r, tuple(il.shape))      # raises if the op's result cannot have the lambda's shape
-            return lambda idx: r.at(idx)
+            f = lambda idx: r.at(idx)       # noqa: E731
+            f.dtype = np.dtype(r.dtype)
+            return f
         try:
-            mk_b(__import__("pv.sem.alg", fromlist=["x"]).TermAlg(kinds))
+            fb = mk_b(__import__("pv.sem.alg", fromlist=["x"]).TermAlg(kinds))
+            # the term algebra does not model widths, so a dropped width-changing cast is invisible to the value
+            # obligation: the re-applied operation must also have the lambda's floating/complex dtype (integer- and
+            # bool-valued results are compared by value only: pytato stores isnan/logical results as integers)
+            dt_il, dt_op = np.dtype(il.dtype), fb.dtype
+            if dt_il.kind in "fc" or dt_op.kind in "fc":
+                sides.append(Side(f"{which}/{nm}/re-applied-operation-has-the-lambdas-dtype", dt_il == dt_op,
+                                  f"{type(hlo).__name__}: lambda {dt_il}, operation applied to the identified operands {dt_op}"))
         except Exception as e:  # noqa: BLE001
             sides.append(Side(f"{which}/{nm}/applicable", False,
                               f"recognised as {type(hlo).__name__} but not applicable: {type(e).__name__}: {e}"))
@@ -284,6 +294,6 @@ def jobs(tier: str, seed: int):
                        "at a symbolic index over uninterpreted inputs with the lambda's pointwise meaning (CrossHair/z3).",
         "bounds": {"API-produced index lambdas": len(api), "hand-built near-misses": len(nm),
                    "operand shapes": "fixed (<= 3 axes, length <= 4); inputs and indices: all"},
-        "outside": ["index lambdas of other shapes than the listed ones", "dtype of the re-applied operation (values only)"],
+        "outside": ["index lambdas of other shapes than the listed ones", "integer/bool dtype of the re-applied operation (floating and complex dtypes are compared)"],
     }
     return J, meta
